@@ -47,6 +47,11 @@ type runner struct {
 	sweepHi int
 	// one FrameParser per flag combination serves the whole case, as one serves a whole connection
 	parsers map[string]*wire.FrameParser
+	// memory-ownership ops (mem_test.go)
+	mem    *memCtx
+	vnKey  string
+	vnVers []protocol.Version
+	vnBuf  []byte
 }
 
 func (rn *runner) parser(flags string) *wire.FrameParser {
@@ -458,12 +463,12 @@ func (rn *runner) decodeOne(lvl, flags, exp string, data []byte) (wire.Frame, in
 	return f, l + n, ""
 }
 
-func encodeFrame(f wire.Frame) string {
+func (rn *runner) encodeFrame(f wire.Frame) string {
 	if f == nil {
 		return "skip"
 	}
 	l := f.Length(protocol.Version1)
-	b, err := f.Append(nil, protocol.Version1)
+	b, err := f.Append(rn.dst(), protocol.Version1)
 	if err != nil {
 		msg := err.Error()
 		switch {
@@ -474,6 +479,7 @@ func encodeFrame(f wire.Frame) string {
 		}
 		return "E:other(" + strings.ReplaceAll(msg, " ", "_") + ")"
 	}
+	b = rn.out(b)
 	return fmt.Sprintf("%s len=%d", hx(b), int64(l))
 }
 
@@ -630,8 +636,10 @@ func (rn *runner) Exec(op string) string {
 		return ""
 	}
 	switch ws[0] {
+	case "at", "dirty", "vnc":
+		return rn.execMem(ws, gen)
 	case "vparse":
-		v, n, err := quicvarint.Parse(unhx(arg(1)))
+		v, n, err := quicvarint.Parse(rn.in(arg(1)))
 		if err != nil {
 			if err == io.EOF {
 				return "E:eof"
@@ -656,13 +664,13 @@ func (rn *runner) Exec(op string) string {
 	case "venc":
 		v := u64(arg(1))
 		l := quicvarint.Len(v)
-		b := quicvarint.Append(nil, v)
+		b := rn.out(quicvarint.Append(rn.dst(), v))
 		if gen {
 			rn.push("vparse " + hx(b))
 		}
 		return fmt.Sprintf("%s len=%d", hx(b), l)
 	case "vencl":
-		b := quicvarint.AppendWithLen(nil, u64(arg(1)), int(u64(arg(2))))
+		b := rn.out(quicvarint.AppendWithLen(rn.dst(), u64(arg(1)), int(u64(arg(2)))))
 		if gen {
 			rn.push("vparse " + hx(b))
 		}
@@ -709,7 +717,7 @@ func (rn *runner) Exec(op string) string {
 		return sb.String()
 	case "enc":
 		f := frameOf(ws[1:])
-		res := encodeFrame(f)
+		res := rn.encodeFrame(f)
 		if gen && !strings.HasPrefix(res, "E:") && res != "skip" {
 			h := strings.Fields(res)[0]
 			rn.push("dec A 111 3 " + h)
@@ -719,7 +727,7 @@ func (rn *runner) Exec(op string) string {
 		rn.parser(arg(1)).SetAckDelayExponent(uint8(u64(arg(2))))
 		return "ok"
 	case "dec":
-		data := unhx(arg(4))
+		data := rn.in(arg(4))
 		f, n, e := rn.decodeOne(arg(1), arg(2), arg(3), data)
 		if e != "" {
 			rn.last = nil
@@ -735,12 +743,12 @@ func (rn *runner) Exec(op string) string {
 			}
 			rn.push(fu...)
 		}
-		return fmt.Sprintf("ok %s n=%d", fmtFrame(f), n)
+		return rn.keep(func() string { return fmt.Sprintf("ok %s n=%d", fmtFrame(f), n) })
 	case "reenc":
 		if rn.last == nil {
 			return "skip"
 		}
-		res := encodeFrame(rn.last)
+		res := rn.encodeFrame(rn.last)
 		if !strings.HasPrefix(res, "E:") {
 			rn.push("dec " + rn.lastCtx + " " + strings.Fields(res)[0])
 		}
@@ -781,7 +789,7 @@ func (rn *runner) Exec(op string) string {
 		}
 		return "ok"
 	case "lhdr":
-		data := unhx(arg(1))
+		data := rn.in(arg(1))
 		hdr, pkt, rest, err := wire.ParsePacket(data)
 		if err != nil {
 			if errors.Is(err, wire.ErrUnsupportedVersion) && hdr != nil {
@@ -801,10 +809,19 @@ func (rn *runner) Exec(op string) string {
 				ext = "E:" + hdrErrClass(err)
 			}
 		}
-		return fmt.Sprintf("ok t=%d v=%d d=%s s=%s len=%d tok=%s pl=%d pkt=%d rest=%d ext=%s", hdr.Type, uint32(hdr.Version),
-			hx(hdr.DestConnectionID.Bytes()), hx(hdr.SrcConnectionID.Bytes()), int64(hdr.Length), hx(hdr.Token), int64(hdr.ParsedLen()), len(pkt), len(rest), ext)
+		npkt, nrest := len(pkt), len(rest)
+		render := func() string {
+			return fmt.Sprintf("ok t=%d v=%d d=%s s=%s len=%d tok=%s pl=%d pkt=%d rest=%d ext=%s", hdr.Type, uint32(hdr.Version),
+				hx(hdr.DestConnectionID.Bytes()), hx(hdr.SrcConnectionID.Bytes()), int64(hdr.Length), hx(hdr.Token), int64(hdr.ParsedLen()), npkt, nrest, ext)
+		}
+		if hdr.Type == protocol.PacketTypeRetry {
+			// the client keeps a Retry token for every later Initial packet (packer.SetToken), long after the
+			// receive buffer is gone; an Initial token is validated by the server while it still holds the buffer
+			return rn.keep(render)
+		}
+		return render()
 	case "shdr":
-		n, pn, pnl, kp, err := wire.ParseShortHeader(unhx(arg(2)), int(u64(arg(1))))
+		n, pn, pnl, kp, err := wire.ParseShortHeader(rn.in(arg(2)), int(u64(arg(1))))
 		if err != nil && !errors.Is(err, wire.ErrInvalidReservedBits) {
 			return "E:" + hdrErrClass(err)
 		}
@@ -814,25 +831,25 @@ func (rn *runner) Exec(op string) string {
 		}
 		return fmt.Sprintf("ok n=%d pn=%d pnl=%d kp=%d res=%s", n, int64(pn), pnl, kp, res)
 	case "cid":
-		c, err := wire.ParseConnectionID(unhx(arg(2)), int(u64(arg(1))))
+		c, err := wire.ParseConnectionID(rn.in(arg(2)), int(u64(arg(1))))
 		if err != nil {
 			return "E:" + hdrErrClass(err)
 		}
-		return "ok " + hx(c.Bytes())
+		return rn.keep(func() string { return "ok " + hx(c.Bytes()) })
 	case "acid":
-		n, d, s, err := wire.ParseArbitraryLenConnectionIDs(unhx(arg(1)))
+		n, d, s, err := wire.ParseArbitraryLenConnectionIDs(rn.in(arg(1)))
 		if err != nil {
 			return "E:" + hdrErrClass(err)
 		}
 		return fmt.Sprintf("ok n=%d d=%s s=%s", n, hx(d), hx(s))
 	case "vn":
-		d, s, vs, err := wire.ParseVersionNegotiationPacket(unhx(arg(1)))
+		d, s, vs, err := wire.ParseVersionNegotiationPacket(rn.in(arg(1)))
 		if err != nil {
 			return "E:" + hdrErrClass(err)
 		}
 		return fmt.Sprintf("ok d=%s s=%s v=%s", hx(d), hx(s), vlist(vs))
 	case "pred":
-		data := unhx(arg(1))
+		data := rn.in(arg(1))
 		long, quic := "-", "-"
 		if len(data) > 0 {
 			long, quic = b01(wire.IsLongHeaderPacket(data[0])), b01(wire.IsPotentialQUICPacket(data[0]))
@@ -850,10 +867,11 @@ func (rn *runner) Exec(op string) string {
 			PacketNumber: protocol.PacketNumber(n("pn=")), PacketNumberLen: protocol.PacketNumberLen(n("pnl=")),
 		}
 		gl := h.GetLength(h.Version)
-		b, err := h.Append(nil, h.Version)
+		b, err := h.Append(rn.dst(), h.Version)
 		if err != nil {
 			return "E:" + hdrErrClass(err)
 		}
+		b = rn.out(b)
 		if gen && h.Type != protocol.PacketTypeRetry && h.Length <= 3000 && int(h.Length) >= int(h.PacketNumberLen) {
 			pad := make([]byte, int(h.Length)-int(h.PacketNumberLen))
 			rn.push("lhdr " + hx(append(append([]byte{}, b...), pad...)))
@@ -864,10 +882,11 @@ func (rn *runner) Exec(op string) string {
 	case "encshdr":
 		n := func(k string) uint64 { return u64(kv(ws, k)) }
 		d := cidOf(kv(ws, "d="))
-		b, err := wire.AppendShortHeader(nil, d, protocol.PacketNumber(n("pn=")), protocol.PacketNumberLen(n("pnl=")), protocol.KeyPhaseBit(n("kp=")))
+		b, err := wire.AppendShortHeader(rn.dst(), d, protocol.PacketNumber(n("pn=")), protocol.PacketNumberLen(n("pnl=")), protocol.KeyPhaseBit(n("kp=")))
 		if err != nil {
 			return "E:" + hdrErrClass(err)
 		}
+		b = rn.out(b)
 		if gen {
 			rn.push(fmt.Sprintf("shdr %d %s", d.Len(), hx(b)))
 		}
@@ -890,7 +909,7 @@ func (rn *runner) Exec(op string) string {
 			pers = protocol.PerspectiveServer
 		}
 		p := &wire.TransportParameters{}
-		if err := p.Unmarshal(unhx(arg(2)), pers); err != nil {
+		if err := p.Unmarshal(rn.in(arg(2)), pers); err != nil {
 			var te *qerr.TransportError
 			if errors.As(err, &te) && te.ErrorCode == qerr.TransportParameterError {
 				return "E:" + tpErrClass(te.ErrorMessage)
@@ -898,7 +917,7 @@ func (rn *runner) Exec(op string) string {
 			return "E:plain"
 		}
 		_ = p.String()
-		return "ok " + fmtTP(p)
+		return rn.keep(func() string { return "ok " + fmtTP(p) })
 	case "tpenc":
 		pers := protocol.PerspectiveClient
 		if arg(1) == "s" {
@@ -910,17 +929,59 @@ func (rn *runner) Exec(op string) string {
 		}
 		return hx(b)
 	case "tpst":
-		b := tpOf(ws[1:]).MarshalForSessionTicket(nil)
+		b := rn.out(tpOf(ws[1:]).MarshalForSessionTicket(rn.dst()))
 		if gen {
 			rn.push("tpstdec " + hx(b))
 		}
 		return hx(b)
 	case "tpstdec":
 		p := &wire.TransportParameters{}
-		if err := p.UnmarshalFromSessionTicket(unhx(arg(1))); err != nil {
+		if err := p.UnmarshalFromSessionTicket(rn.in(arg(1))); err != nil {
 			return "E:" + tpErrClass(err.Error())
 		}
-		return "ok " + fmtTP(p)
+		return rn.keep(func() string { return "ok " + fmtTP(p) })
+	case "stk": // (*sessionTicket).Marshal: the revision, then the parameters appended behind it
+		b := handshake.VerifC08TicketMarshal(tpOf(ws[1:]))
+		if gen {
+			rn.push("stkdec " + hx(b))
+		}
+		return hx(b)
+	case "stkdec":
+		p, err := handshake.VerifC08TicketUnmarshal(rn.in(arg(1)))
+		if err != nil {
+			msg := err.Error()
+			const tpPrefix = "unmarshaling transport parameters from session ticket failed: "
+			switch {
+			case msg == "failed to read session ticket revision":
+				return "E:revread"
+			case strings.HasPrefix(msg, "unknown session ticket revision: "):
+				return "E:rev(" + strings.TrimPrefix(msg, "unknown session ticket revision: ") + ")"
+			case strings.HasPrefix(msg, tpPrefix):
+				return "E:tp:" + tpErrClass(strings.TrimPrefix(msg, tpPrefix))
+			}
+			return "E:other(" + strings.ReplaceAll(msg, " ", "_") + ")"
+		}
+		return rn.keep(func() string { return "ok " + fmtTP(p) })
+	case "stkx": // stkx <own|-> <entry,entry,…>: entries are hex; `+hex` is tagged by addSessionStateExtraPrefix first
+		var extras [][]byte
+		if arg(1) != "-" && arg(1) != "" {
+			for _, e := range strings.Split(arg(1), ",") {
+				if strings.HasPrefix(e, "+") {
+					extras = append(extras, handshake.VerifC08AddExtraPrefix(unhx(e[1:])))
+				} else {
+					extras = append(extras, unhx(e))
+				}
+			}
+		}
+		var all []string
+		for _, e := range extras {
+			all = append(all, hx(e))
+		}
+		r := handshake.VerifC08FindExtra(extras)
+		if r == nil {
+			return "nil entries=" + strings.Join(all, ",")
+		}
+		return "ok " + hx(r) + " entries=" + strings.Join(all, ",")
 	case "smax":
 		f := &wire.StreamFrame{StreamID: protocol.StreamID(u64(kv(ws, "sid="))), Offset: protocol.ByteCount(u64(kv(ws, "off="))), DataLenPresent: kv(ws, "len=") == "1"}
 		return fmt.Sprint(int64(f.MaxDataLen(protocol.ByteCount(u64(arg(1))), protocol.Version1)))
@@ -1030,7 +1091,7 @@ func (rn *runner) Exec(op string) string {
 		var key handshake.TokenProtectorKey
 		copy(key[:], unhx(arg(1)))
 		tg := handshake.NewTokenGenerator(key)
-		tok, err := tg.DecodeToken(unhx(arg(2)))
+		tok, err := tg.DecodeToken(rn.in(arg(2)))
 		if err != nil {
 			if strings.HasPrefix(err.Error(), "token too short") {
 				return "E:short"
